@@ -51,6 +51,7 @@ class Check:
         self.violations: list = []  # (fingerprint, replay_path, summary)
         self.known_hits: list = []
         self._nontrivial: set = set()
+        self._vfp: set = set()
         self._known = load_known()
         os.makedirs(os.path.join(REPLAYS, prop), exist_ok=True)
         os.makedirs(EVIDENCE, exist_ok=True)
@@ -84,8 +85,9 @@ class Check:
                 if fingerprint not in [k[0] for k in self.known_hits]:
                     self.known_hits.append((fingerprint, kf.get("what", summary)))
                 return
-        if fingerprint in [v[0] for v in self.violations]:
+        if fingerprint in self._vfp:
             return
+        self._vfp.add(fingerprint)
         h = hashlib.sha1(fingerprint.encode()).hexdigest()[:12]
         path = os.path.join(REPLAYS, self.prop, f"{h}.json")
         replay = dict(replay)
